@@ -1,4 +1,5 @@
 """C03: the UCI position command reconstructs the game state exactly."""
+from ._session import session_tie, SESSION_RULE
 
 
 def _stat(case, obs):
@@ -24,12 +25,12 @@ SPEC = {
     }, {
         "name": "printed-moves-parse-back", "group": "hpos", "key": "MOVES", "tags": ["C03"],
         "n_quick": 3000, "n_thorough": 200000, "min_per_shard": 180,
-    }],
+    }, session_tie(["C03"], n_quick=32)],
     "rule": "`position startpos|fen F moves m1..mn` commands built from seeded random and biased legal playouts (up to 600 plies, "
             "ended by the 75-move rule) from the start position and curated FENs, plus malformed commands (missing fields, bad move "
             "text); tie 1 compares the position the game object will search (whole struct) and its repetition history with the model "
             "of NewPosition; tie 2 replays the same UCI moves on the extracted FIDE specification and compares the final FEN (full-move "
             "number modulo the 8-bit ply counter) - a difference IS a failing input; tie 3: every legal move's printed text is fed back "
-            "through MakeMoveFromString and must give the same successor; non-trivial = at least one move; distinct = distinct commands",
+            "through MakeMoveFromString and must give the same successor; non-trivial = at least one move; distinct = distinct commands." + SESSION_RULE,
     "assumptions": ["moves form a legal game; half-move clock below 256; full-move number compared modulo 128 beyond 255 plies"],
 }
